@@ -49,7 +49,7 @@ def walk_tree(case):
             if rec["name"] == case["blank_codes"]:
                 blank += [("LED", rec["name"], nth, path) for path, off, leaf, arr in L.leaves(rec) if leaf["r"] == "code" and leaf["k"] in ("ai", "s")]
     b = product.build_product(level=case["level"], images=case["images"], seed=case["seed"], plan=plan, ctx=case.get("ctx"),
-                              blank=blank, summary_extra=case.get("summary_extra"))
+                              blank=blank, summary_extra=case.get("summary_extra"), vary_first=case.get("vary_first", False))
     url = imgrun.put_on_fs(b, case["fs"], f"c12_{case['seed']}_{case.get('k')}")
     res = {"case": case, "bad": [], "n_vars": 0, "n_attrs": 0}
     try:
@@ -140,6 +140,8 @@ def body(chk):
             cases.append(dict(level=level, images=images, seed=chk.seed + si, k=k, fs=("local", "vtrace", "memory", "file")[si % 4]))
     cases.append(dict(level="1.5", images=(("HH", None, 2, 2),), seed=chk.seed + 9, k=1, ctx=dict(designator="LCC-PROJECTION"), fs="local"))
     cases.append(dict(level="1.5", images=(("HH", None, 2, 2),), seed=chk.seed + 9, k=2, ctx=dict(designator="UPS-PROJECTION"), fs="local"))
+    for j in range(2):  # an image whose per-file fields change along its lines (update flags raised on some lines)
+        cases.append(dict(level=("1.5", "1.1")[j], images=(("HH", None, 4, 2), ("HV", None, 3, 1)), seed=chk.seed + 15 + j, k=None, fs="local", vary_first=True))
     # sections the reader has no transformer for (browse image, future additions): whatever it does with them, attributes stay plain
     cases.append(dict(level="1.5", images=(("HH", None, 2, 2),), seed=chk.seed + 11, k=None, fs="local",
                       summary_extra=['Brs_BrowseImageFileName="BRS-HH-ALOS2014410740-140829-WBDR1.5RUD.jpg"', 'Brs_BrowseBitPixel="8"', 'Xyz_Unknown=""']))
